@@ -96,6 +96,10 @@ def gen_cases(rng, tier):
         w = make_world('e%d' % n, rng, rng.choice([0, 2]), 'plain')
         w['env'] = {'fd2_at_exit': lines}
         add('e%d' % n, w, 'trailing')
+        n += 1
+        w = make_world('e%d' % n, rng, rng.choice([1, 2]), 'plain')
+        w['env'] = {'fd2_at_exit': lines, 'fd2_at_exit_nonl': True}
+        add('e%d' % n, w, 'trailing-no-eol')
     for tok in ['7 0 0', ' 12 0 0 ', '0 0 0']:
         n += 1
         w = make_world('k%d' % n, rng, 2, 'plain')
